@@ -38,6 +38,49 @@ struct Digest {
     out_hash: u64,
 }
 
+fn digest_hash(d: &Digest) -> u64 {
+    let mut h = hash64(d.out_hash ^ 0x51ed);
+    h = hash64(h ^ crate::engine::fnv(&format!("{:?}{:?}{:?}{:?}", d.res, d.before, d.after, d.written)));
+    h
+}
+
+/// `rv lone`: run one instance alone in this (fresh) process and print one hash per step
+pub fn lone_main() {
+    let mut line = String::new();
+    std::io::stdin().read_line(&mut line).expect("stdin");
+    let inst: Inst = serde_json::from_str(&line).expect("instance json");
+    let cfg = inst.cfg.sanitized().0;
+    let sig = Signal::Noise { seed: inst.seed, amp: 10f64.powi(inst.amp_exp as i32) };
+    let opts = HistOpts { envelope: true, record_out: true, quant32: false, stop_on_err: false };
+    let mut a = Any::new(cfg.f32);
+    if let Err(e) = a.construct(&cfg, &opts) {
+        println!("ERR {}", e);
+        return;
+    }
+    for (i, op) in inst.ops.iter().enumerate() {
+        a.step(i, op, &sig);
+    }
+    let v: Vec<u64> = a.digests().iter().map(digest_hash).collect();
+    println!("{}", serde_json::to_string(&v).unwrap());
+}
+
+fn lone_in_fresh_process(inst: &Inst) -> Result<Vec<u64>, String> {
+    use std::io::Write;
+    use std::process::{Command, Stdio};
+    let mut child = Command::new(std::env::current_exe().map_err(|e| e.to_string())?).arg("lone").arg("C18").stdin(Stdio::piped()).stdout(Stdio::piped()).stderr(Stdio::null()).spawn().map_err(|e| e.to_string())?;
+    {
+        let mut si = child.stdin.take().unwrap();
+        writeln!(si, "{}", serde_json::to_string(inst).unwrap()).map_err(|e| e.to_string())?;
+    }
+    let out = child.wait_with_output().map_err(|e| e.to_string())?;
+    let text = String::from_utf8_lossy(&out.stdout);
+    let line = text.lines().next().unwrap_or("");
+    if line.starts_with("ERR") || line.is_empty() {
+        return Err(format!("lone run failed: {} (status {:?})", line, out.status));
+    }
+    serde_json::from_str(line).map_err(|e| e.to_string())
+}
+
 fn digest<T: SampleX>(s: &Step<T>) -> Digest {
     let mut h = 0x1234_5678u64;
     for ch in &s.out {
@@ -202,6 +245,26 @@ fn run(c: &Case) -> Outcome {
             return o;
         }
     }
+    // one instance per case is also compared with a run alone in a pristine process: process-wide state
+    // (a static scratch buffer, a lazily filled table) that earlier resamplers left behind shows here
+    if !insts.is_empty() {
+        let k = (crate::engine::fnv(&format!("{:?}", c.n_threads)) as usize + insts.len() * 7 + insts[0].2.ops.len()) % insts.len();
+        match lone_in_fresh_process(insts[k].2) {
+            Ok(h) => {
+                let mine: Vec<u64> = live[k].digests().iter().map(digest_hash).collect();
+                if h != mine {
+                    let at = h.iter().zip(&mine).position(|(x, y)| x != y);
+                    o.fail(format!("process-state-dependent:{}", insts[k].0.kind.name()), format!("instance {} ({}) differs at step {:?} from the same history run alone in a fresh process", k, insts[k].0.kind.name(), at));
+                    return o;
+                }
+                o.count("fresh_process_references", 1);
+            }
+            Err(e) => {
+                o.fail("harness:lone-run", e);
+                return o;
+            }
+        }
+    }
     o.count("rounds_with_concurrency", concurrent_rounds);
     o.count("migrations", migrations);
     o.count("instance_histories", insts.len() as u64);
@@ -215,7 +278,7 @@ impl Property for C18 {
         "C18"
     }
     fn rule(&self) -> String {
-        "cases = 2..16 resampler instances (all types, f32/f64) with their own histories and a schedule assigning the construction and every call of every instance to one of 1..16 OS threads; round r runs call r of all instances concurrently (barrier release), so instances overlap with each other and migrate between threads at call boundaries. Every instance's per-step results, getters and output bits must equal those of the same history run alone on a thread of its own. A third of the instances are near-twins of their predecessor (same parameters, ratio differing in the 6th or 10th digit, constructed on the same thread right after it); input amplitudes range down to the subnormal range. non-trivial = >= 2 instances, >= 2 rounds with at least two busy threads, >= 1 migration. distinct = distinct case JSON digest.".into()
+        "cases = 2..16 resampler instances (all types, f32/f64) with their own histories and a schedule assigning the construction and every call of every instance to one of 1..16 OS threads; round r runs call r of all instances concurrently (barrier release), so instances overlap with each other and migrate between threads at call boundaries. Every instance's per-step results, getters and output bits must equal those of the same history run alone on a thread of its own, and for one instance per case also those of a run alone in a pristine process. A third of the instances are near-twins of their predecessor (same parameters, ratio differing in the 6th or 10th digit, constructed on the same thread right after it); input amplitudes range down to the subnormal range. non-trivial = >= 2 instances, >= 2 rounds with at least two busy threads, >= 1 migration. distinct = distinct case JSON digest.".into()
     }
     fn assumptions(&self) -> Vec<String> {
         vec!["the harness decides which thread runs which call and what overlaps, not the instruction-level interleaving; a race needing a narrow window can be missed (exploration only)".into()]
